@@ -11,10 +11,12 @@ from gen import cigars as G
 ID = "C16"
 PROPS = ["IsoVerif/Props/C16.lean", "IsoVerif/Props/C16PolyA.lean", "IsoVerif/Props/C16Record.lean",
          "IsoVerif/Props/C16Finder.lean", "IsoVerif/Props/C16MoveRef.lean", "IsoVerif/Props/C16FinderSpec.lean",
-         "IsoVerif/Props/C16TailRecord.lean", "IsoVerif/Props/C16Concat.lean"]
+         "IsoVerif/Props/C16TailRecord.lean", "IsoVerif/Props/C16Concat.lean", "IsoVerif/Props/C16FinderChar.lean",
+         "IsoVerif/Props/C16CutsN.lean", "IsoVerif/Props/C16TailExons.lean"]
 TARGETS = ["IsoVerif.Props.C16", "IsoVerif.Props.C16PolyA", "IsoVerif.Props.C16Record", "IsoVerif.Props.C16Finder",
            "IsoVerif.Props.C16MoveRef", "IsoVerif.Props.C16FinderSpec", "IsoVerif.Props.C16TailRecord",
-           "IsoVerif.Props.C16Concat"]
+           "IsoVerif.Props.C16Concat", "IsoVerif.Props.C16FinderChar", "IsoVerif.Props.C16CutsN",
+           "IsoVerif.Props.C16TailExons"]
 GEN_DEPS = ["Enums", "CigarClasses", "Prims"]
 LEVEL = "proof"
 RULE = ("exhaustive CIGARs (all 9 operation kinds: <=3 ops x lengths {1,2,3}, 4 ops x {1,2}; 5 ops over 7 kinds and 6 ops "
@@ -28,7 +30,12 @@ RULE = ("exhaustive CIGARs (all 9 operation kinds: <=3 ops x lengths {1,2,3}, 4 
         "49 clip variants (leading/trailing in {none, S, H, H S, S H, S S, H H}) x shifts -5..5; find_polya_tail / "
         "find_polyt_head with random from/to/check_entire on random reads with A/T-rich ends, indels at the alignment "
         "ends, P operations and H/S clip combinations; the whole record chain (modelled finder + trimming) against "
-        "AlignmentInfo.add_polya_info with the real PolyAFinder; a case is non-trivial when the model returns a non-error value with at least one block "
+        "AlignmentInfo.add_polya_info with the real PolyAFinder; find_polya AND its brute-force specification on every "
+        "A/C string of length <= 7 (thorough 9) x windows 0..4 x counts 0..w+1 and on threshold inputs (a window with "
+        "exactly c-1 / c / c+1 A's placed first, in the middle, as the last accepted and as the excluded last window; "
+        "sequences shorter than / as long as the window; lower case, mixed case, N); find_polya_tail / find_polyt_head "
+        "AND their specifications on reads whose checked region is such a threshold input (split between aligned part "
+        "and soft clip at every point, indels / N in the aligned part, trailing H); a case is non-trivial when the model returns a non-error value with at least one block "
         "(CIGAR ops) / a changed exon list or a non-zero count (polyA ops) and model == implementation; "
         "distinct by (op, input)")
 TRUSTED = ["Gen/CigarClasses.lean (match / ins-del-match operation sets, polyA window constants) is extracted from "
@@ -41,6 +48,10 @@ ASSUMPTIONS = ["CPython int semantics = Lean Int", "CIGAR operation lengths are 
                "the three current_*_start locals of get_read_blocks are assigned together (one Option triple in the model)",
                "move_ref_coord_spec / find_polya_tail_spec / find_polyt_head_spec: CIGAR operation lengths >= 0 (NonNeg); "
                "record_tail_on_retained_exon: lengths >= 1 and reference_start >= 0 (SAM-valid record)",
+               "find_polya_tail_eq_spec / find_polya_tail_char / raises_iff: CIGAR operation lengths >= 0; "
+               "record_removed_exons_are_tail: SAM-valid record (lengths >= 1, reference_start >= 0); "
+               "count_polya_exons_spec / trimmed_exons_are_tail_exons: sorted disjoint exon list (what get_read_blocks yields)",
+               "str.upper() maps exactly a-z to A-Z on the read alphabet (Lean Char.toUpper; is_a_flag_iff / is_t_flag_iff)",
                "min_polya_fraction is compared as the exact rational num/den; the harness uses dyadic fractions "
                "(1/4, 1/2, 3/4, 1) for which the float comparison of the code is exact"]
 
@@ -161,16 +172,16 @@ def impl_call(op, kw):
             ai = bare_alignment_info(kw["exons"], kw["rb"], kw["cb"])
             ai.add_polya_info(fake_finder(kw["info"]), fixer(kw["mf"]))
             return ainfo_json(ai)
-        if op == "find_polya":
+        if op in ("find_polya", "find_polya_spec"):      # the code and, separately, its brute-force specification
             f = PF.PolyAFinder(kw["w"], 0.75)
             f.polyA_count = kw["c"]
             return f.find_polya(kw["seq"])
         if op in ("move_ref_coord", "move_ref_coord_spec"):   # the code and, separately, its specification
             return PF.move_ref_coord_alogn_alignment(SimpleNamespace(cigartuples=tl(kw["cigar"])), kw["shift"])
-        if op in ("find_polya_tail", "find_polyt_head"):
+        if op in ("find_polya_tail", "find_polyt_head", "find_polya_tail_spec", "find_polyt_head_spec"):
             f = PF.PolyAFinder(kw["w"], kw["num"] / kw["den"])
             a = make_segment(kw["s"], kw["cigar"], kw["seq"])
-            fn = f.find_polya_tail if op == "find_polya_tail" else f.find_polyt_head
+            fn = f.find_polya_tail if op.startswith("find_polya_tail") else f.find_polyt_head
             return fn(a, kw["from"], kw["to"], kw["chk"])
         if op == "record_polya":
             a = make_segment(kw["s"], kw["cigar"], kw["seq"])
@@ -498,6 +509,67 @@ def tail_finder_cases(ctx):
         yield ("record_polya", {"s": s, "cigar": cig, "seq": seq, "mf": rng.choice([20, 40])})
 
 
+def boundary_cases(ctx):
+    """the window scan and the two tail finders (code model AND specification) on inputs built around the count
+    threshold: windows with exactly c-1 / c / c+1 A's at the start, in the middle, as the last accepted and as the
+    excluded last window; sequences shorter than / as long as the window; window 0; lower case; N"""
+    import itertools
+    rng = ctx.rng
+    quick = ctx.tier == "quick"
+    # exhaustive: every A/C string up to length 7 (9) x every window 0..4 x every count 0..w+1, model and spec
+    n = 0
+    for L in range(0, 8 if quick else 10):
+        for bits in itertools.product("AC", repeat=L):
+            seq = "".join(bits)
+            for w in range(0, 5):
+                for c in range(0, w + 2):
+                    if quick and rng.random() < 0.5:
+                        continue
+                    n += 1
+                    yield ("find_polya_spec", {"w": w, "c": c, "seq": seq})
+                    if w == 0 or c in (0, w + 1):
+                        yield ("find_polya", {"w": w, "c": c, "seq": seq})
+    ctx.extra["find_polya_spec_universe"] = {"alphabet": "AC", "max_len": 7 if quick else 9, "windows": "0..4",
+                                             "counts": "0..w+1", "cases": n}
+    for _ in range(6000 if quick else 60000):
+        w = rng.choice([1, 2, 3, 4, 8, 16, 16, 16])
+        c = rng.choice([w * 3 // 4, w * 3 // 4, w // 2, w, rng.randint(0, w)])
+        flags, tag = G.threshold_flags(rng, w, c)
+        seq = G.flags_to_seq(rng, flags, "A", rng.choice(["upper", "upper", "upper", "lower", "mixed", "n"]))
+        ctx.count("boundary:find_polya:" + tag.split(":")[0])
+        yield ("find_polya", {"w": w, "c": c, "seq": seq})
+        yield ("find_polya_spec", {"w": w, "c": c, "seq": seq})
+    for i in range(4000 if quick else 40000):
+        r = rng.random()
+        if r < 0.4:
+            w, num, den = 16, 3, 4
+        else:
+            w = rng.choice([1, 2, 3, 4, 8])
+            num, den = rng.choice(FRACTIONS)
+        head = i % 2 == 1
+        seq, cig, frm, to, chk, tag = (G.boundary_head_read if head else G.boundary_tail_read)(rng, w, num, den)
+        if G.query_len(cig) != len(seq) or not seq:
+            continue
+        kw = {"w": w, "num": num, "den": den, "s": rng.choice([0, 1, 7, rng.randint(0, 10 ** 6)]), "cigar": cig,
+              "seq": seq, "from": frm, "to": to, "chk": chk}
+        op = "find_polyt_head" if head else "find_polya_tail"
+        ctx.count("boundary:%s:%s" % (op, tag.split(":")[0]))
+        yield (op, kw)
+        yield (op + "_spec", dict(kw))
+    # the specifications of the tail finders on the ordinary finder reads as well
+    for i in range(1500 if quick else 15000):
+        seq, cig = G.finder_read(rng)
+        if not seq:
+            continue
+        w = rng.choice([1, 2, 4, 16, 16])
+        num, den = (3, 4) if w == 16 else rng.choice(FRACTIONS)
+        frm, to, chk = rng.choice([(2, 2 * w, False), (4 * w, 2, True), (rng.randint(0, 70), rng.randint(0, 40), rng.random() < 0.5)])
+        kw = {"w": w, "num": num, "den": den, "s": rng.choice([0, 5, rng.randint(0, 10 ** 6)]), "cigar": cig, "seq": seq,
+              "from": frm, "to": to, "chk": chk}
+        yield ("find_polya_tail_spec", kw)
+        yield ("find_polyt_head_spec", dict(kw))
+
+
 def mirror_law_check(ctx):
     """polyt_polya_mirror_law on the real code: clean tails (>= 20 soft-clipped A's after >= 4 non-A bases) —
     find_polyt_head of the mirror image = max(1, L - 1 - find_polya_tail)"""
@@ -536,11 +608,11 @@ def nontrivial(op, kw, mo):
         return mo != kw["pos"]
     if op in ("add_polya_info", "alignment_polya"):
         return bool(mo.get("changed"))
-    if op == "find_polya":
+    if op in ("find_polya", "find_polya_spec"):
         return mo != -1
     if op in ("move_ref_coord", "move_ref_coord_spec"):
         return mo > 0
-    if op in ("find_polya_tail", "find_polyt_head"):
+    if op in ("find_polya_tail", "find_polyt_head", "find_polya_tail_spec", "find_polyt_head_spec"):
         return mo != -1
     if op == "record_polya":
         return "after" in mo and not vlib.is_err(mo["after"]) and bool(mo["after"].get("changed"))
@@ -612,7 +684,7 @@ def correspondence(ctx):
     state = {"pysam_ok": 0, "first": None}
     mirror_law_check(ctx)
     stream = itertools.chain(gen_cases(ctx), finder_cases(ctx), finder_unit_cases(ctx), move_ref_cases(ctx),
-                             tail_finder_cases(ctx))
+                             tail_finder_cases(ctx), boundary_cases(ctx))
     while True:
         chunk = list(itertools.islice(stream, CHUNK))
         if not chunk:
@@ -724,7 +796,17 @@ def is_sd(ex):
     return all(a <= b for a, b in ex) and all(ex[i][1] < ex[i + 1][0] for i in range(len(ex) - 1))
 
 
-def check_trim(before, rb, cb, info, ai_after):
+def passes_polya_test(e, x, mf):
+    """`polya_counted_iff` (Props/C16TailExons.lean): the exon ends after the internal polyA position x and either starts
+    at or after it or has <= mf bases before it and more than twice as many after"""
+    return x != -1 and x < e[1] and (x <= e[0] or (x - e[0] <= mf and 2 * (x - e[0]) < e[1] - x))
+
+
+def passes_polyt_test(e, x, mf):
+    return x != -1 and e[0] < x and (e[1] <= x or (e[1] - x <= mf and 2 * (e[1] - x) < x - e[0]))
+
+
+def check_trim(before, rb, cb, info, ai_after, mf=None):
     """the trimming clause on one run; returns None or (kind, detail)"""
     after = vlib.canon(ai_after.read_exons)
     n = len(before)
@@ -743,6 +825,15 @@ def check_trim(before, rb, cb, info, ai_after):
         return "trim_blocks_out_of_step", "read/cigar blocks not cut with the exons"
     if (ai_after.read_start, ai_after.read_end) != (after[0][0], after[-1][1]):
         return "trim_ends_stale", "read_start/read_end %s" % ((ai_after.read_start, ai_after.read_end),)
+    # "terminal exons that consist of an aligned polyA/polyT tail": a removed exon passes the per-exon test of its side
+    # for the internal position the finder reported (reading rule docs/C16.md §3; theorem trimmed_exons_are_tail_exons)
+    if mf is not None:
+        for e in before[n - a:] if a else []:
+            if not passes_polya_test(e, info[2], mf):
+                return "removed_exon_not_tail", "3' exon %s removed, internal polyA %s, max_fake %s" % (e, info[2], mf)
+        for e in before[:t]:
+            if not passes_polyt_test(e, info[3], mf):
+                return "removed_exon_not_tail", "5' exon %s removed, internal polyT %s, max_fake %s" % (e, info[3], mf)
     pi = ai_after.polya_info
     new = [pi.external_polya_pos, pi.external_polyt_pos, pi.internal_polya_pos, pi.internal_polyt_pos]
     # tail positions (reading: docs/C16.md)
@@ -781,7 +872,7 @@ def oracle_trim_unit(exons, info, mf):
         ai.add_polya_info(fake_finder(info), fixer(mf))
     except Exception as ex:
         return "trim_exception", "%s: %s" % (type(ex).__name__, ex)
-    return check_trim(vlib.canon(exons), rb, cb, info, ai)
+    return check_trim(vlib.canon(exons), rb, cb, info, ai, mf)
 
 
 def oracle_trim_read(s, seq, cigar, mf):
@@ -801,7 +892,7 @@ def oracle_trim_read(s, seq, cigar, mf):
         ai.add_polya_info(finder, fixer(mf))
     except Exception as ex:
         return "trim_exception", "%s: %s (positions %s)" % (type(ex).__name__, ex, info)
-    r = check_trim(before, rb, cb, info, ai)
+    r = check_trim(before, rb, cb, info, ai, mf)
     if r:
         return r
     # the recorded tail position belongs to this alignment: a found position lies next to the aligned reference
@@ -916,7 +1007,8 @@ def oracle(ctx, disagreements, broken):
                     r = oracle_trim_unit(ex, info, mf)
                     if r:
                         ctx.fail(r[0], {"check": "trim_unit", "exons": ex, "info": info, "mf": mf}, r[1])
-        elif op in ("record_polya", "find_polya_tail", "find_polyt_head") and kw.get("seq") \
+        elif op in ("record_polya", "find_polya_tail", "find_polyt_head", "find_polya_tail_spec",
+                    "find_polyt_head_spec") and kw.get("seq") \
                 and not any(k == G.P for k, _ in kw["cigar"]):
             r = oracle_trim_read(kw["s"], kw["seq"], kw["cigar"], kw.get("mf", 40))
             if r:
